@@ -179,6 +179,8 @@ class Cache:
             res.limit = 0
             res.group_by = set()
             res.is_summarized = False
+            # the WHERE clause of the right side becomes part of the joined SELECT
+            res.is_filtered = self.is_filtered or right_cache.is_filtered
 
         elif isinstance(node, verbs.Union):
             assert right_cache is not None
